@@ -5,7 +5,7 @@
        S   = (proc p) | (recv (cls..) 0|1) | (timeout d) | (bad InvalidArgument|TypeMismatch)
        VD  = (t n) | nil | (e Class)          (filter oracle; absent entries are nil)
        VAL = (m id cls) | nil | (v n)
-       E   = (step now) | (msg id cls) | (res p VAL) | (fail p) | (active) | (local p VAL|-)
+       E   = (step now) | (msg id cls) | (res p VAL) | (fail p) | (active) | (local p VAL|-) | (tick now)
      -> (run D..)   one dump D per event:
         (d (q b) (s b) SEL (mb (id cls)..) (aw (p -|VAL)..) (val -|VAL) (err -|(e Class)|(aw p)) (nt -|t))
         SEL = - | (sel (cur c..) (recv -|(r (id cls))) (start -|t) (nsrc n))
@@ -102,6 +102,7 @@ let event_of = function
   | Sexp.List [Sexp.Atom "fail"; p] -> EFail (nat_of p)
   | Sexp.List [Sexp.Atom "active"] -> EActive
   | Sexp.List [Sexp.Atom "local"; p; v] -> ELocal (nat_of p, optval_of v)
+  | Sexp.List [Sexp.Atom "tick"; now] -> ETick (z_of_string (Sexp.atom now))
   | s -> failwith ("bad event " ^ Sexp.to_string s)
 
 let dump_msg (id, cls) = "(" ^ sn id ^ " " ^ sn cls ^ ")"
